@@ -24,7 +24,9 @@ claim("C08",
             "model lock table after every op. A second sub-check does the same for transparent coins: UTXOs received mined/unmined/coinbase at own, other-account "
             "and foreign addresses, spent by mined, mempool and stored transactions, un-mined by reorganisations, then propose_shielding / propose_shielding_coinbase "
             "/ transfers with a transparent source under generated thresholds, address sets, coinbase filters and policies; every selected coin is checked for "
-            "ownership, address scope, spender, confirmations, coinbase maturity, locks and single selection."),
+            "ownership, address scope, spender, confirmations, coinbase maturity, locks and single selection. Executed (stored) Sapling transfers and shielding "
+            "transactions are mined a few blocks later and scanned, so that wallet-created change and shielding-output notes exist and the documented confirmation "
+            "rule for them (newest shielding input) is asserted on later proposals."),
       note="Not reached: P2SH/imported transparent addresses, transparent change, execution of TEX two-step proposals, pending transactions with Orchard/Ironwood change (need real proving keys). Liveness (a coverable request yields a proposal) is not in the statement and only counted.")
 
 claim("C09",
@@ -45,7 +47,11 @@ claim("C01",
             "nullifier-tracking floor and pruning engage) are applied to a real SQLite wallet and to a model ledger written from the property text "
             "and the documented expiry rule. After EVERY step total+uneconomic per account and pool and all mined-note rows (txid, index, value, "
             "nullifier, position, height, scope, spent-by) must equal the model; at the end everything is scanned and compared with a fresh wallet "
-            "that scans the final chain linearly. Exploration: held on every generated history, no proof."),
+            "that scans the final chain linearly. A second sub-check (transparent-balances) interleaves such histories with transparent coins (received through "
+            "put_received_transparent_utxo and/or decrypt_and_store_transaction, mined / unmined / above the tip / coinbase, to own, other-account and foreign addresses; "
+            "spent by mined, mempool and stored transactions; reorganised away and mined again; tip advanced past expiry and coinbase maturity) and compares the "
+            "unshielded balance per account and per address with a coin model after every operation and with a fresh wallet at the end. Exploration: held on every "
+            "generated history, no proof."),
       note="Trusted: the repository's TestFvk note-encryption helpers used to fabricate compact outputs; incrementalmerkletree frontiers; proptest 1.4.0; the model's reading of tx_unexpired_condition (40-block rule).")
 
 claim("C06",
